@@ -64,10 +64,21 @@ def registry():
                               'system_untouched': SYS_UNTOUCHED, 'type': 'type(result) is int'},
                      opaque=['spec.integer.legacy_candidate'],
                      modifies=[TP + '.g_pos'], result='int', options={'int_lemmas': []}))
+    # ---- bytes_to_long: PROVED against be() (the big-endian value every other area assumes): 4-byte groups through struct
+    # after left-padding with zero bytes to a multiple of 4.  Lemmas: be(a ++ b) == be(a)*256**len(b) + be(b) (be_cat, instance
+    # of the previous iteration as first invariant; of the padding at exit) and be(zero bytes) == 0.
+    reg.add(Contract(N + 'bytes_to_long', params={'s': 'bytes'}, raises={},
+                     ensures={'value': 'result == be(s)', 'type': 'type(result) is int'},
+                     loops={0: {'index': '_k',
+                                'invariant': ['_k == 0 or be_split(s, 4 * (_k - 1), 4 * _k)',
+                                              'acc == be(s[:4 * _k])']}},
+                     lemmas={'exit': {'zeros': 'len(s) % 4 == 0 or be_zeros(4 - len(s) % 4)',
+                                      'pad': 'len(s) % 4 == 0 or be_cat(rep(b"\\x00", 4 - len(s) % 4), s)'}},
+                     modifies=[], result='int'))
     return reg
 
 
-C14_TARGETS = ['ceil_div', 'size', 'inverse']
+C14_TARGETS = ['ceil_div', 'size', 'inverse', 'bytes_to_long']
 C18_TARGETS = ['getRandomInteger', 'getRandomRange', 'getRandomNBitInteger']
 
 
